@@ -37,6 +37,8 @@ class C08(Check):
     pid = "C08"
     title = "SBML export then import reproduces the model, or export fails"
     rules = {
+        "E10": "ids are injective: an entity id that is created inside nested loops (reaction x stoichiometry entry) depends on the key of every enclosing "
+               "loop, directly or through the helper that defines it",
         "E9": "(shared with C17) the re-import side of a round trip: every document gets its own generated module (U1 of C17)",
         "E1": "exhaustiveness / field consumption of the AST->MathML converters: every dispatcher default raises; comparison chains, call "
               "arguments and keywords are consumed in full or refused",
@@ -54,7 +56,7 @@ class C08(Check):
               "the next component that uses the same function with other arguments",
         "E6": "API existence: every method called on a libsbml object exists on the class its factory returns",
     }
-    floors = {"E9": 1, "E1": 8, "E2": 3, "E3": 10, "E4": 2, "E5": 20, "E6": 25, "E7": 2, "E8": 1}
+    floors = {"E10": 1, "E9": 1, "E1": 8, "E2": 3, "E3": 10, "E4": 2, "E5": 20, "E6": 25, "E7": 2, "E8": 1}
     decided = [
         "an expression construct the exporter cannot represent raises instead of producing a different / unreadable formula",
         "coefficient signs survive; ids are produced by one converter; libsbml is called with methods that exist",
@@ -71,6 +73,7 @@ class C08(Check):
         self.e2(mod)
         self.e3(mod)
         self.e4(mod)
+        self.e10(mod)
         self.e5(mod)
         self.e6(mod)
         self.e7(mod)
@@ -233,6 +236,64 @@ class C08(Check):
                 self.violated("E3", MOD, "_convert_node", "math-names-converted", c,
                               f"`{norm(c)}` puts the raw model name into the formula while the entity is registered under its converted id",
                               witness="a variable named 'A.B' or 'x-1': its species id is escaped, the kinetic law refers to the unescaped name")
+
+    def e10(self, mod) -> None:
+        """Entity ids created inside nested loops depend on every loop's key (otherwise two entities share one id)."""
+        DEFINING = {"setId", "setVariable"}
+        # module functions whose parameter ends up as a defined id: name -> set of parameter names
+        defining_params: dict[str, set[str]] = {}
+        for fname, f in mod.functions.items():
+            if "." in fname:
+                continue
+            params = [a.arg for a in f.args.posonlyargs + f.args.args + f.args.kwonlyargs]
+            ld = single_defs(f, anywhere=True)
+            for c in walk_no_nested(f):
+                if isinstance(c, ast.Call) and isinstance(c.func, ast.Attribute) and c.func.attr in DEFINING and c.args:
+                    a = expand_locals(c.args[0], {k: v for k, v in ld.items()}, depth=4)
+                    for n in ast.walk(a):
+                        if isinstance(n, ast.Name) and n.id in params:
+                            defining_params.setdefault(fname, set()).add(n.id)
+        n_sites = 0
+        for fname, f in mod.functions.items():
+            if "." in fname or not fname.startswith("_create_sbml"):
+                continue
+            sc = Scope(f)
+            ld = single_defs(f, anywhere=True)
+            for c in walk_no_nested(f):
+                if not isinstance(c, ast.Call):
+                    continue
+                id_exprs = []
+                if isinstance(c.func, ast.Attribute) and c.func.attr in DEFINING and c.args:
+                    id_exprs.append(c.args[0])
+                elif isinstance(c.func, ast.Name) and c.func.id in defining_params:
+                    callee = mod.functions[c.func.id]
+                    cparams = [a.arg for a in callee.args.posonlyargs + callee.args.args]
+                    for i, a in enumerate(c.args):
+                        if i < len(cparams) and cparams[i] in defining_params[c.func.id]:
+                            id_exprs.append(a)
+                    for k in c.keywords:
+                        if k.arg in defining_params[c.func.id]:
+                            id_exprs.append(k.value)
+                loops = [l for l in sc.enclosing(c, ast.For)]
+                if not id_exprs or len(loops) < 2:
+                    continue
+                keys = []
+                for l in loops:
+                    t = l.target
+                    keys.append(norm(t.elts[0]) if isinstance(t, ast.Tuple) else norm(t))
+                for e in id_exprs:
+                    n_sites += 1
+                    full = expand_locals(e, ld, depth=4)
+                    used = {n.id for n in ast.walk(full) if isinstance(n, ast.Name)}
+                    missing = [k for k in keys if k not in used]
+                    cons = f"id-per-entity {norm(c.func)}@{fname}"
+                    if missing:
+                        self.violated("E10", MOD, fname, cons, c,
+                                      f"the id `{norm(full)[:70]}` is created once per ({', '.join(reversed(keys))}) but does not depend on {missing}: two entities get the same id and the second one replaces the first on import",
+                                      witness="two reactions with a computed coefficient on the same species x (2k and 3k): the re-imported model applies 3k to both, dx/dt = 6 instead of 5")
+                    else:
+                        self.holds("E10", MOD, fname, cons, c, f"id depends on every enclosing loop key {keys}")
+        self.analysed["ids_defined_in_nested_loops"] = n_sites
 
     def e4(self, mod) -> None:
         """Coefficient export, from the path summaries of one stoichiometry entry (match or isinstance dispatch alike)."""
@@ -402,6 +463,7 @@ class C08(Check):
 
     def must_fire(self):
         return [
+            Variant("reintroduce-shared-coefficient-rule-id", MOD, "_create_sbml_reactions", "reference = f'{name}_{compound_id}ref'", "reference = f'{compound_id}ref'", expect="E10|", quick=True),
             Variant("memoised-parse", MOD, "", "def _sbmlify_fn(fn: Callable, user_args: list[str]) -> libsbml.ASTNode:\n    return _tree_to_sbml(get_fn_ast(fn), args=user_args)",
                     "from functools import cache\n\n@cache\ndef _parse_fn(fn: Callable) -> ast.FunctionDef:\n    tree = get_fn_ast(fn)\n    return tree\n\ndef _sbmlify_fn(fn: Callable, user_args: list[str]) -> libsbml.ASTNode:\n    return _tree_to_sbml(_parse_fn(fn), args=user_args)",
                     expect="E7|", quick=True),
